@@ -233,7 +233,7 @@ def rand_item(rng, ka, with_key, keyval, others, va_map_ok):
 KINDS = ['seq_of_maps', 'map_of_maps', 'map_of_scalars', 'map_mixed',
          'scalar', 'seq_with_scalar', 'missing', 'item_without_key',
          'dup_keys', 'nonstr_key', 'empty_seq', 'empty_map', 'index',
-         'index_wrongname']
+         'index_wrongname', 'map_complex_key']
 
 
 def gen_case(rng, kind=None):
@@ -289,6 +289,15 @@ def gen_case(rng, kind=None):
         its.insert(rng.randint(0, n), item(7, True, rng.choice(
             [N.s_int(7), N.s_null(), ['seq', [], S.TAG_SEQ]])))
         a = ['seq', its, S.TAG_SEQ]
+    elif kind == 'map_complex_key':
+        # one entry of the mapping has a key that is no scalar
+        ps = [[N.s_str('k%d' % i), item(i, rng.random() < 0.3)]
+              for i in range(n)]
+        ps.insert(rng.randint(0, n), [
+            ['seq', [N.s_str('p'), N.s_str('q')], S.TAG_SEQ],
+            item(8, rng.random() < 0.3) if rng.random() < 0.6
+            else rng.choice(scalar_pool())])
+        a = ['map', ps, S.TAG_MAP]
     elif kind == 'empty_seq':
         a = ['seq', [], S.TAG_SEQ]
     elif kind == 'empty_map':
